@@ -1,6 +1,7 @@
 ----------------------------- MODULE Export_C07 -----------------------------
 EXTENDS U_C07, Json, IOUtils
-ASSUME JsonSerialize(IOEnv.JASM_OUT, [p |-> UniverseP, a |-> UniverseA, t |-> UniverseT])
+UR == INSTANCE U_Range
+ASSUME JsonSerialize(IOEnv.JASM_OUT, [p |-> UniverseP, a |-> UniverseA, t |-> UniverseT, r |-> UR!UniverseRange])
 VARIABLE x
 Init == x = 0
 Next == x' = x
